@@ -279,7 +279,8 @@ func c18Run(sc *c18Scenario) *c18Obs {
 	if sc.cE {
 		c.SetCommonErrorResult(&c18C{})
 	}
-	if !sc.autoRead {
+	reqLevelNoAutoRead := !sc.autoRead && sc.verb%2 == 1 // auto-read is switched off at either level
+	if !sc.autoRead && !reqLevelNoAutoRead {
 		c.DisableAutoReadResponse()
 	}
 	if sc.hook {
@@ -507,11 +508,22 @@ func c18Run(sc *c18Scenario) *c18Obs {
 	}
 
 	req = c.R()
+	if reqLevelNoAutoRead {
+		req.DisableAutoReadResponse()
+	}
 	if sc.sT {
-		req.SetSuccessResult(&o.okT)
+		if sc.verb%3 == 0 {
+			req.SetResult(&o.okT) // deprecated alias
+		} else {
+			req.SetSuccessResult(&o.okT)
+		}
 	}
 	if sc.eT {
-		req.SetErrorResult(&o.erT)
+		if sc.verb%3 == 1 {
+			req.SetError(&o.erT) // deprecated alias
+		} else {
+			req.SetErrorResult(&o.erT)
+		}
 	}
 	// request-level response middleware (user ones and the built-in digest middleware)
 	for i := range sc.reqResp {
